@@ -231,6 +231,8 @@ pub enum Op {
     Deliver { dir: u8, k: u16 },
     Drop { dir: u8, k: u16 },
     Dup { dir: u8, k: u16 },
+    /// rewrite an in-flight datagram into its other wire representation (payload compressed / not)
+    Recode { dir: u8, k: u16 },
     DeliverAll { dir: u8 },
     /// n small vital chunks, each flushed, delivered in order, then acknowledged
     Burst { side: u8, n: u16 },
@@ -272,6 +274,7 @@ pub struct Stats {
     pub ready: u64,
     pub drops: u64,
     pub dups: u64,
+    pub recoded: u64,
     pub reorders: u64,
     pub faults_on_vital: u64,
     pub handshake_lost: u64,
@@ -678,6 +681,22 @@ impl<P: Proto> Sim<P> {
                 self.net[dir].push(f);
                 Ok(true)
             }
+            Op::Recode { dir, k } => {
+                // the network does not do this, but a peer may: same packet, other wire representation
+                let dir = dir as usize & 1;
+                if self.net[dir].is_empty() {
+                    return Ok(false);
+                }
+                let k = crate::pick(k, self.net[dir].len());
+                match crate::c06_reader_total::recode(&self.net[dir][k].data, P::IS7) {
+                    Some(alt) => {
+                        self.net[dir][k].data = alt;
+                        self.stats.recoded += 1;
+                        Ok(true)
+                    }
+                    None => Ok(false),
+                }
+            }
             Op::DeliverAll { dir } => {
                 let dir = dir as usize & 1;
                 let mut n = 0;
@@ -929,6 +948,7 @@ pub fn op_strategy(max_len: usize) -> BoxedStrategy<Op> {
         8 => (0u8..2, prop_oneof![3 => Just(0u16), 1 => any::<u16>()]).prop_map(|(dir, k)| Op::Deliver { dir, k }),
         2 => (0u8..2, any::<u16>()).prop_map(|(dir, k)| Op::Drop { dir, k }),
         2 => (0u8..2, any::<u16>()).prop_map(|(dir, k)| Op::Dup { dir, k }),
+        2 => (0u8..2, prop_oneof![2 => Just(0u16), 1 => any::<u16>()]).prop_map(|(dir, k)| Op::Recode { dir, k }),
         3 => side.clone().prop_map(|dir| Op::DeliverAll { dir }),
         1 => (0u8..2, prop_oneof![3 => 1u16..40, 1 => 200u16..300]).prop_map(|(side, n)| Op::Burst { side, n }),
         1 => (0u8..2, prop::bool::weighted(0.35)).prop_map(|(side, on)| Op::FailSends { side, on }),
